@@ -17,7 +17,14 @@ const (
 	FMsgpackRaft = "msgpackraft"
 	FJSON        = "json"
 	FQuery       = "query"
+	FSnapshot    = "snapshot" // dsstate.State.Marshal -> Unmarshal -> List (serialEntry in msgpack, pins in protobuf)
 )
+
+// Snapshot is the harness's own record for a state dump: the pins of a state, sorted by CID.
+type Snapshot struct{ Pins []api.Pin }
+
+// SnapshotRecord is not part of Records (it is no struct of the repository, the schema table does not list it).
+var SnapshotRecord = Record{"Snapshot", reflect.TypeOf(Snapshot{}), []string{FSnapshot}}
 
 // Record is one wire record: a struct type and the formats the system uses for it.
 // The format lists are hand-written from reading the callers (RPC argument and
@@ -58,6 +65,9 @@ var Records = []Record{
 
 // RecordByName finds a record.
 func RecordByName(n string) *Record {
+	if n == SnapshotRecord.Name {
+		return &SnapshotRecord
+	}
 	for i := range Records {
 		if Records[i].Name == n {
 			return &Records[i]
